@@ -60,6 +60,97 @@ pub fn yield_point(site: u32) {
     }
 }
 
+/// Instrumented mutex for the list implementation: every release of a list
+/// lock is a schedule point of its own (`yield_point(RELEASE_BASE + k)` after
+/// the k-th release by the running operation, when it holds no other list
+/// lock), so a window between two critical sections is visible to the
+/// schedule harnesses whether or not the source marks it.
+pub mod sched {
+    use std::ops::{Deref, DerefMut};
+    use std::sync::{LockResult, PoisonError};
+
+    /// Site ids at and above this value are release points
+    pub const RELEASE_BASE: u32 = 1000;
+
+    /// List locks held by the running operation (not counting what the
+    /// hook's own operations take and release)
+    pub static mut HELD: u32 = 0;
+
+    /// Lock releases by the running operation since the last `reset`
+    pub static mut RELEASES: u32 = 0;
+
+    /// Forget the counters (start of a harness)
+    pub fn reset() {
+        // SAFETY: only single-threaded verification harnesses use this
+        unsafe {
+            HELD = 0;
+            RELEASES = 0;
+        }
+    }
+
+    #[derive(Debug, Default)]
+    pub struct Mutex<T: ?Sized>(std::sync::Mutex<T>);
+
+    pub struct MutexGuard<'a, T: ?Sized>(
+        Option<std::sync::MutexGuard<'a, T>>,
+    );
+
+    impl<T> Mutex<T> {
+        pub fn new(t: T) -> Self {
+            Self(std::sync::Mutex::new(t))
+        }
+    }
+
+    impl<T: ?Sized> Mutex<T> {
+        pub fn lock(&self) -> LockResult<MutexGuard<'_, T>> {
+            let r = self.0.lock();
+            // SAFETY: only single-threaded verification harnesses set the hook
+            unsafe {
+                if !super::IN_HOOK {
+                    HELD += 1;
+                }
+            }
+            match r {
+                Ok(g) => Ok(MutexGuard(Some(g))),
+                Err(p) => {
+                    Err(PoisonError::new(MutexGuard(Some(p.into_inner()))))
+                }
+            }
+        }
+    }
+
+    impl<T: ?Sized> Deref for MutexGuard<'_, T> {
+        type Target = T;
+        fn deref(&self) -> &T {
+            self.0.as_ref().unwrap()
+        }
+    }
+
+    impl<T: ?Sized> DerefMut for MutexGuard<'_, T> {
+        fn deref_mut(&mut self) -> &mut T {
+            self.0.as_mut().unwrap()
+        }
+    }
+
+    impl<T: ?Sized> Drop for MutexGuard<'_, T> {
+        fn drop(&mut self) {
+            // release the lock first, then let the other thread run
+            self.0 = None;
+            // SAFETY: only single-threaded verification harnesses set the hook
+            unsafe {
+                if super::IN_HOOK {
+                    return;
+                }
+                HELD -= 1;
+                RELEASES += 1;
+                if HELD == 0 {
+                    super::yield_point(RELEASE_BASE + RELEASES);
+                }
+            }
+        }
+    }
+}
+
 /// Captured output of the code generator
 pub mod capture {
     use std::sync::Mutex;
